@@ -94,7 +94,7 @@ def generateAsis (P : Params ℚ) (cs : List (Arch ℚ)) (lib : Lib ℚ) :=
   match cs with
   | [] => computeBEMAsis P lib
   | _ :: _ =>
-    match customize P.zone cs lib with
+    match customizeAsis P.zone cs lib with
     | .error e => .error e
     | .ok lib' => computeBEMAsis P lib'
 
